@@ -10,6 +10,7 @@ From GmsmVerif Require Import Lib.Outcome Dec.Access Dec.DecSpec Dec.ByteModels 
   Gen.PKCS7Tables P7.P7Model P7.P7Proofs P12.MacModel P12.MacProofs
   P12.RC2Model P12.RC2Proofs P12.PbkdfSpec P12.PbkdfModel P12.PbkdfProofs P12.BmpModel P12.BmpProofs
   P12.ContainerModel P12.ContainerProofs P12.ContainerInst.
+From GmsmVerif Require EC.SM2Curve SM2.SM2Model P7.P7SM2Model P7.P7SM2Proofs.
 Import ListNotations.
 Local Open Scope nat_scope.
 Notation length := List.length (only parsing).
@@ -87,6 +88,59 @@ Example C17_envelope_example :
   (do env <- enc DESCBC [1;2;3]%N [11;12;13]%Z [42]%N [0;0;0;0;0;0;0;0]%N (fun _ => tt); dec env 12%Z 13%Z) = Err 9 /\
   (do env <- enc AES128GCM [] [11]%Z [42]%N (repeat 0%N 12) (fun _ => tt); dec env 11%Z 11%Z) = Ok [].
 Proof. vm_compute. repeat split; reflexivity. Qed.
+
+(* ---- C17 o C02: the SM2 key transport is the SM2 model of the C02 family, and its round trip is C02's theorem with
+   the SM2 facts proved (Prime/SM2FactsProof.v).  What is left as a premise is the content cipher (DES-CBC / AES-GCM
+   decryption inverts encryption), nothing about SM2.  A certificate is used through the private scalar cert_d its
+   public key [cert_d]G belongs to; the randomness of a recipient is the byte stream sm2.Encrypt draws from. *)
+Section C17_Envelope_SM2.
+  Variable Cert : Type.
+  Variable cert_serial : Cert -> Z.
+  Variable cert_rawIssuer : Cert -> list N.
+  Variable cert_d : Cert -> Z.
+  Variable fuel : nat.
+  Variable mode : Z.                                               (* C1C3C2 / C1C2C3 *)
+  Variables cbc_enc cbc_dec gcm_seal : list N -> list N -> list N -> list N.
+  Variable gcm_open : list N -> list N -> list N -> option (list N).
+  Variable key_ok : calg -> list N -> bool.
+  Hypothesis cbc_len_enc : forall k iv p, length (cbc_enc k iv p) = length p.
+  Hypothesis cbc_len_dec : forall k iv c, length (cbc_dec k iv c) = length c.
+  Hypothesis cbc_dec_enc : forall k iv p, cbc_dec k iv (cbc_enc k iv p) = p.
+  Hypothesis gcm_open_seal : forall k n p, gcm_open k n (gcm_seal k n p) = Some p.
+
+  Let wrap := fun (c : Cert) (k rho : list N) => P7SM2Model.sm2_wrap fuel mode (cert_d c) k rho.
+  Let unwrap := fun (d : Z) (e : list N) => P7SM2Model.sm2_unwrap mode d e.
+  Let EncryptSM2 := PKCS7Encrypt Cert cert_serial cert_rawIssuer (list N) wrap cbc_enc gcm_seal.
+  Let DecryptSM2 := Decrypt Cert cert_serial cert_rawIssuer Z unwrap cbc_dec gcm_open key_ok.
+  Let ident := ident Cert cert_serial cert_rawIssuer.
+
+  Theorem C17_envelope_roundtrip_sm2 :
+    forall alg content rs key iv rnd env c,
+      key_ok alg key = true -> length iv = (match alg with DESCBC => 8 | AES128GCM => 12 end) ->
+      EncryptSM2 alg content rs key iv rnd = Ok env -> In c rs -> NoDup (map ident rs) ->
+      DecryptSM2 env c (cert_d c) = Ok content.
+  Proof.
+    intros alg content rs key iv rnd env c.
+    refine (envelope_roundtrip Cert cert_serial cert_rawIssuer (fun _ x => x) (fun _ => None) (fun _ _ _ _ => true)
+             Z (list N) wrap unwrap cbc_enc cbc_dec gcm_seal gcm_open key_ok cert_d
+             _ cbc_len_enc cbc_len_dec cbc_dec_enc gcm_open_seal alg content rs key iv rnd env c).
+    intros c0 k r e. unfold wrap, unwrap. apply P7SM2Proofs.sm2_unwrap_wrap.
+  Qed.
+End C17_Envelope_SM2.
+Print Assumptions C17_envelope_roundtrip_sm2.
+
+(* non-vacuity: two recipients with the SM2 keys d = 1 and d = 2, real SM2 model, toy content cipher; recipient 2
+   gets the content back, recipient 2's certificate with key 1 does not *)
+Example C17_envelope_sm2_example :
+  let rho := repeat 0%N 39 ++ [1%N] in
+  let wrap := fun (c : Z) (k r : list N) => P7SM2Model.sm2_wrap 2 0 c k r in
+  let unwrap := fun (d : Z) (e : list N) => P7SM2Model.sm2_unwrap 0 d e in
+  let enc := PKCS7Encrypt Z (fun c => c) (fun c => [7%N]) (list N) wrap toy_xor (fun k n p => p ++ k) in
+  let dec := P7Model.Decrypt Z (fun c => c) (fun c => [7%N]) Z unwrap toy_xor (fun k n c => None) (fun _ _ => true) in
+  (do env <- enc DESCBC [1;2;3]%N [1;2]%Z [42;43]%N [0;0;0;0;0;0;0;0]%N (fun _ => rho); dec env 2%Z 2%Z) = Ok [1;2;3]%N /\
+  (exists e, (do env <- enc DESCBC [1;2;3]%N [1;2]%Z [42;43]%N [0;0;0;0;0;0;0;0]%N (fun _ => rho); dec env 2%Z 1%Z) = Err e) /\
+  (exists e, enc DESCBC [1;2;3]%N [0]%Z [42;43]%N [0;0;0;0;0;0;0;0]%N (fun _ => rho) = Err e).
+Proof. cbv zeta. split; [vm_compute; reflexivity|split; eexists; vm_compute; reflexivity]. Qed.
 
 (* ================= 2. signed data ============================================================ *)
 Section C17_Signed.
